@@ -376,9 +376,19 @@ func (p *Program) isGhostFn(fn *ssa.Function) bool {
 }
 
 func (x *Exec) havocMods(st *State, ms *ModSet) {
+	if ms.Locks {
+		// the callee may have locked or unlocked the mutex
+		st.cells["$held"] = Val{S: x.c.freshSort("held", "Bool")}
+	}
 	if ms.All {
 		x.c.havocAll(st)
+		if ms.Writes {
+			x.c.havocWfault(st)
+		}
 		return
+	}
+	if ms.Writes {
+		x.c.havocWfault(st)
 	}
 	if ms.Reads {
 		// the callee may have read input: the ghost tape cursor moves forward
@@ -788,7 +798,19 @@ func init() {
 		c.havocRegion(st, "$alloc")
 		res := x.results(st, resT, "e")
 		c.assume(not(eq(res.S, "I_nil")))
-		c.note("trusted: " + extKey(fn) + " returns a non-nil error and has no other effect")
+		// a freshly made error value differs from the error values that
+		// existed before the call, in particular from the sentinels of io
+		if iop := x.p.ssaProg.ImportedPackage("io"); iop != nil {
+			for _, nm := range []string{"EOF", "ErrUnexpectedEOF"} {
+				if g := iop.Var(nm); g != nil {
+					sv := x.load(st, x.globalPtr(g), pos)
+					if sv.S != "" {
+						c.assume(not(eq(res.S, sv.S)))
+					}
+				}
+			}
+		}
+		c.note("trusted: " + extKey(fn) + " returns a new non-nil error value (distinct from io.EOF and io.ErrUnexpectedEOF) and has no other effect")
 		return res
 	}
 	// sort.Slice(x, less): permutes the elements of x; less must be a read-only function of ours
